@@ -159,15 +159,15 @@ def conformance(ctx, exe, quick):
     if not run_scripts(ctx, exe, s3, "gen"):
         return
     rnd = random.Random(ctx.seed)
-    walks = unique_scripts(ctx.tlc_gen("TraceSink", "Gen_TraceSink.tla", "Gen_d7.cfg", simulate=(300, 70) if quick else (3000, 70), workers=1,
-                                       timeout=300, limit=400 if quick else 6000))
+    walks = unique_scripts(ctx.tlc_gen("TraceSink", "Gen_TraceSink.tla", "Gen_d7.cfg", simulate=(300, 70) if quick else (1500, 70), workers=1,
+                                       timeout=300, limit=300 if quick else 3000))
     if not run_scripts(ctx, exe, walks, "walks"):
         return
     # enable / disable cycles: every sequence of 6 calls over a small alphabet (enable, disable, one commit, one size limit); a seeded sample in the quick tier
     cyc = unique_scripts(ctx.tlc_gen("TraceSink", "Gen_TraceSink.tla", "Gen_cycle.cfg"))
     if quick:
         rnd.shuffle(cyc)
-        cyc = sorted(cyc[:500], key=lambda s: json.dumps(s, sort_keys=True))
+        cyc = sorted(cyc[:400], key=lambda s: json.dumps(s, sort_keys=True))
     if not run_scripts(ctx, exe, cyc, "cycles"):
         return
     # the same call sequences with every commit repeated 30 times and ~900 byte names: about ten records per pipe buffer, records
@@ -177,14 +177,14 @@ def conformance(ctx, exe, quick):
         return {"ops": ops, "rep": 30, "pad": 880 + (i % 3) * 17}
     big = [bigger(i, s) for i, s in enumerate(with_commits + walks + cyc) if sum(1 for o in s["ops"] if o["o"] == "commit") >= 2]
     rnd.shuffle(big)
-    big = big[:60 if quick else 1500]
+    big = big[:60 if quick else 400]
     ctx.notes.append("call sequences: %d exhaustive, %d random walks of 7 calls, %d enable/disable cycles of 6 calls, %d repeated with 30 x ~900 byte records per commit" % (len(s3), len(walks), len(cyc), len(big)))
     if not run_scripts(ctx, exe, big, "big"):
         return
     # 3. code -> spec: seeded random concurrent histories
-    plan = [("random", 70 if quick else 1500, 12, ""), ("race", 30 if quick else 800, 8, "race")]
+    plan = [("random", 60 if quick else 600, 12, ""), ("race", 24 if quick else 300, 8, "race")]
     for tag, nexec, nsteps, mode in plan:
-        per = 35 if tag == "random" else 30
+        per = 30
         done, k = 0, 0
         while done < nexec:
             n = min(per, nexec - done)
